@@ -1,0 +1,34 @@
+//go:build verif
+
+// Package verifhook provides trace/gate points for the verification harness. It is only
+// active when the code is built with the "verif" tag and a handler has been installed.
+package verifhook
+
+import "sync/atomic"
+
+// Handler receives the name of the point and its key/value arguments. It may block the
+// calling goroutine (scheduler gate) and it may record an event.
+type Handler func(point string, kv []any)
+
+var handler atomic.Value // Handler
+
+// Install sets the handler. A nil handler disables all points.
+func Install(h Handler) {
+	if h == nil {
+		handler.Store(Handler(func(string, []any) {}))
+		return
+	}
+	handler.Store(h)
+}
+
+// Enabled reports whether the hooks are compiled in.
+const Enabled = true
+
+// At marks a point of interest. It is called after the state change it names and before the
+// lock protecting that change is released, unless the point's name ends in ".before".
+func At(point string, kv ...any) {
+	h, _ := handler.Load().(Handler)
+	if h != nil {
+		h(point, kv)
+	}
+}
